@@ -696,6 +696,46 @@ def run_late(legacy, seq):
         w.close()
 
 
+def run_appimport(legacy, importer):
+    """An app that is loaded and running is later imported by another app: the running context is replaced, not doubled - every occurrence
+    runs its trigger once, and unload leaves nothing."""
+    from mc.world import World
+
+    a_src = "@event_trigger('ev1')\ndef f(**kw):\n    pyscript.cnt = str(int(pyscript.cnt) + 1)\n"
+    w = World({"apps/a.py": a_src}, legacy=legacy, config={"apps": {"a": {}, "b": {}}})
+    try:
+        w.hass.states.async_set("pyscript.cnt", "0")
+        w.settle()
+        obs = []
+
+        def occ():
+            w.fire("ev1", {})
+            w.settle()
+            obs.append((w.hass.states.get("pyscript.cnt").state, w.census()["listeners"].get("ev1", 0)))
+
+        occ()
+        w.write(importer, "import a\n" if importer.endswith("__init__.py") else "from a import f as a_f\n")
+        w.reload()
+        w.settle()
+        occ()
+        w.touch("apps/a.py")
+        w.reload()
+        w.settle()
+        occ()
+        entry = w.hass.config_entries.async_entries("pyscript")[0]
+        w.run(w.hass.config_entries.async_unload(entry.entry_id))
+        w.collect()
+        occ()
+        want = [("1", 1), ("2", 1), ("3", 1), ("3", 0)]
+        if obs != want:
+            return {"kind": "app-imported-by-app", "expected": want, "observed": obs}, obs
+        if w.errors:
+            return {"kind": "loop-exception", "detail": repr(w.errors[0])[:300]}, obs
+        return None, obs
+    finally:
+        w.close()
+
+
 def harvest_before_reload(w):
     """Runs recorded in the context that is about to be discarded."""
     g = w.g()
@@ -745,6 +785,7 @@ def plan(tier, seed):
             shards.append(("file", mixname, legacy, depth))
     for legacy in (False, True):
         shards.append(("late", legacy, 5 if tier == "thorough" else 4))
+        shards.append(("appimport", legacy))
     # the same file histories with definitions that are replaced / deleted while the file is still loading
     for mixname in ("state1", "event", "updown", "combo", "service", "time", "mqtt", "webhook"):
         if mixname in MIXES:
@@ -767,6 +808,11 @@ def run_shard(shard):
             if skipped:
                 continue
             record(res, "session", mixname, legacy, seq, fail, trace, m)
+    elif kind == "appimport":
+        legacy = shard[1]
+        for importer in ("apps/b/__init__.py", "apps/b.py"):
+            fail, obs = run_appimport(legacy, importer)
+            record(res, "appimport", "appimport", legacy, (importer,), fail, [("obs", obs)], None)
     elif kind == "late":
         _, legacy, depth = shard
         for seq in EX.sequences(LATE_OPS, depth):
@@ -802,6 +848,9 @@ def record(res, engine, mixname, legacy, seq, fail, trace, m):
 
 
 def replay(case):
+    if case["engine"] == "appimport":
+        fail, obs = run_appimport(case["legacy"], case["seq"][0])
+        return {"ok": fail is None, "failure": fail, "observed": obs}
     if case["engine"] == "late":
         fail, trace = run_late(case["legacy"], tuple(case["seq"]))
         return {"ok": fail is None, "failure": fail, "trace": [list(t) for t in trace]}
